@@ -17,6 +17,7 @@ type Config struct {
 	HoldPub   bool            `json:"hold_pub,omitempty"`   // a server's publish waits for the simulator (notification goroutines overtake each other)
 	Yields    bool            `json:"yields,omitempty"`     // the scheduling points inserted into the server copy are seams (C12)
 	PackOrder bool            `json:"pack_order,omitempty"` // the order of the packs in a request and in an answer is a seeded choice (the client fills a request while ranging over a Go map, the server collects answers as they come)
+	CollNames []string        `json:"coll_names,omitempty"` // names of the collections (default col1, col2, ...)
 	Observe   bool            `json:"observe,omitempty"`    // report plain end-of-run observations (scenario demonstrations)
 	Count     bool            `json:"count,omitempty"`      // report the database commands issued per exchange event (base scenarios of the systematic placement)
 }
